@@ -72,7 +72,12 @@ func genC10(r *sim.Rand, tier string) *sim.Program {
 		case 9, 10:
 			p.Add("kx", u, (u+1)%nu, r.Intn(1<<30), r.PickInt(16, 16, 32, 48, 100), r.Intn(2), r.Intn(7), r.Intn(3), r.Intn(1<<16))
 		case 11:
-			p.Add("kat")
+			if r.Chance(1, 3) {
+				// constructive: search a scalar for which the 1-byte derived key is zero, so that WrapKey must draw again
+				p.Add("wrapretry", u, r.Intn(1<<30))
+			} else {
+				p.Add("kat")
+			}
 		default:
 			p.Add("keyser", u)
 		}
@@ -371,6 +376,39 @@ func execC10(t *testing.T, p *sim.Program, c *sim.Ctx) {
 				c.Fail("altered-cipher-unwrapped", i, op.K, "an altered key encapsulation unwraps to the original key")
 			}
 			c.Hit("fault:byte-altered")
+		case "wrapretry":
+			c.Abs("wrapretry", len(u.uid)%64)
+			var hitR []byte
+			for j := 0; j < 700 && hitR == nil; j++ {
+				cand := scalarFrom(append([]byte(fmt.Sprint(op.Int(1), j)), seed...), "wr")
+				pr := &sim.ScriptReader{Data: cand, Fill: 13, Step: 5}
+				if _, _, err := sm9.WrapKey(pr, epub, u.uid, u.hidE, 1); err != nil {
+					c.Fail("wrap-failed", i, op.K, "%v", err)
+					return
+				} else if pr.Off > 32 {
+					hitR = cand // the first scalar was discarded: its 1-byte key was all zero
+				}
+			}
+			if hitR == nil {
+				continue
+			}
+			c.Hit("probe:wrap-zero-key-retry-taken")
+			r2 := scalarFrom(append([]byte(fmt.Sprint(op.Int(1))), seed...), "wr2")
+			pr := &sim.ScriptReader{Data: append(append([]byte{}, hitR...), r2...), Fill: 13, Step: 5}
+			key, ct, err := sm9.WrapKey(pr, epub, u.uid, u.hidE, 1)
+			if err != nil {
+				c.Fail("wrap-failed", i, op.K, "%v", err)
+				return
+			}
+			c.Out("wkey", key)
+			c.Out("wct", ct)
+			if !kdfCheck(i, op.K, u, ct, key) {
+				return
+			}
+			if got, err := sm9.UnwrapKey(u.enc, u.uid, ct, 1); err != nil || !bytes.Equal(got, key) {
+				c.Fail("unwrap-mismatch", i, op.K, "after a zero-key retry unwrap does not return the wrapped key: %v", err)
+				return
+			}
 		case "enc", "encall":
 			msg := op.Bytes(0)
 			if len(msg) == 0 {
